@@ -46,7 +46,14 @@ enum Running {
 
 fn to_ev(e: NodeEvent<u64>) -> Ev {
     match e {
-        NodeEvent::Network(NetEvent::Accepted(ep, _)) => Ev::Accepted(ep.addr()),
+        NodeEvent::Network(NetEvent::Accepted(ep, listener)) => {
+            // the second field is the id of the listener that accepted the connection: a listener id of the
+            // same transport, never the connection's own id; a wrong one poisons the observed event
+            let plausible = listener.resource_type() == message_io::network::ResourceType::Local
+                && listener.adapter_id() == ep.resource_id().adapter_id()
+                && listener != ep.resource_id();
+            if plausible { Ev::Accepted(ep.addr()) } else { Ev::Accepted("0.0.0.0:0".parse().unwrap()) }
+        }
         NodeEvent::Network(NetEvent::Message(ep, d)) => Ev::Message(ep.addr(), d.to_vec()),
         NodeEvent::Network(NetEvent::Disconnected(ep)) => Ev::Disconnected(ep.addr()),
         NodeEvent::Network(NetEvent::Connected(_, ok)) => Ev::Connected(ok),
@@ -335,6 +342,9 @@ fn run_serial_sparse(mode: Mode) -> (String, String, String, String) {
     let (handler, listener) = node::split::<u64>();
     let (_l1, a_tcp) = handler.network().listen(Transport::FramedTcp, "127.0.0.1:0").unwrap();
     let (_l2, a_udp) = handler.network().listen(Transport::Udp, "127.0.0.1:0").unwrap();
+    let (_l3, a_raw) = handler.network().listen(Transport::Tcp, "127.0.0.1:0").unwrap();
+    let raw_bytes = Arc::new(AtomicU64::new(0));
+    let rb2 = raw_bytes.clone();
     let inside = Arc::new(AtomicBool::new(false));
     let in_signal = Arc::new(AtomicBool::new(false));
     let overlaps = Arc::new(AtomicUsize::new(0));
@@ -352,8 +362,14 @@ fn run_serial_sparse(mode: Mode) -> (String, String, String, String) {
             s2.store(false, Ordering::SeqCst);
         }
         else {
-            if matches!(e, Ev::Message(..)) {
-                n2.fetch_add(1, Ordering::SeqCst);
+            if let Ev::Message(_, data) = &e {
+                // raw Tcp chunks are told apart by their filler byte; they are counted in bytes
+                if data.first() == Some(&0xEE) {
+                    rb2.fetch_add(data.len() as u64, Ordering::SeqCst);
+                }
+                else {
+                    n2.fetch_add(1, Ordering::SeqCst);
+                }
             }
             std::thread::sleep(Duration::from_millis(5));
         }
@@ -363,6 +379,9 @@ fn run_serial_sparse(mode: Mode) -> (String, String, String, String) {
     let udp = UdpSocket::bind("127.0.0.1:0").unwrap();
     let mut tcp = TcpStream::connect(a_tcp).unwrap();
     tcp.set_nodelay(true).ok();
+    let mut raw = TcpStream::connect(a_raw).unwrap();
+    raw.set_nodelay(true).ok();
+    let mut raw_sent = 0u64;
     std::thread::sleep(Duration::from_millis(120));
     let wait_signal = |flag: &AtomicBool| {
         let t = Instant::now();
@@ -378,6 +397,9 @@ fn run_serial_sparse(mode: Mode) -> (String, String, String, String) {
         std::thread::sleep(Duration::from_millis(80));
         let _ = udp.send_to(&[r as u8; 8], a_udp);
         sent += 1;
+        // … and a piece of a raw Tcp stream
+        let _ = raw.write_all(&[0xEE; 3000]);
+        raw_sent += 3000;
         std::thread::sleep(Duration::from_millis(140));
         // a frame in two halves, 60 and 70 ms into the next signal callback
         handler.signals().send(100 + r);
@@ -395,11 +417,12 @@ fn run_serial_sparse(mode: Mode) -> (String, String, String, String) {
     let returned = finish(running, Duration::from_secs(3));
     let ov = overlaps.load(Ordering::SeqCst);
     let (n, g) = (nets.load(Ordering::SeqCst), sigs.load(Ordering::SeqCst));
-    let ok = ov == 0 && returned.is_some() && n == sent && g == 6;
+    let rb = raw_bytes.load(Ordering::SeqCst);
+    let ok = ov == 0 && returned.is_some() && n == sent && g == 6 && rb == raw_sent;
     (
         format!("node serialsparse {}", mode.name()),
         format!("overlaps={}", ov),
-        if ok { "ok".into() } else { format!("FAIL overlaps={} network messages {} of {} signals {} of 6 returned={:?}", ov, n, sent, g, returned) },
+        if ok { "ok".into() } else { format!("FAIL overlaps={} network messages {} of {}, raw Tcp bytes {} of {}, signals {} of 6 returned={:?}", ov, n, sent, rb, raw_sent, g, returned) },
         format!("serial,sparse,{},both-threads", mode.name()),
     )
 }
@@ -911,6 +934,12 @@ fn main() {
                     let (c, i, o, t) = run_serial_sparse(m);
                     emit(&mut out, &c, &i, &o, &t);
                 }
+            }
+        }
+        "gen-sparse" => {
+            for m in modes {
+                let (c, i, o, t) = run_serial_sparse(m);
+                emit(&mut out, &c, &i, &o, &t);
             }
         }
         "gen-stop" => {
